@@ -24,25 +24,37 @@ const K_PCT: u8 = 3;
 const K_AND: u8 = 4;
 const K_OR: u8 = 5;
 
+/// (sum, sum of squares, count) of the STDDEV / VARIANCE aggregator after the last fold3 call
+static mut LAST_VARIANCE_STATE: (Option<i64>, Option<i64>, i64) = (None, None, 0);
+
 fn fold3(kind: u8, agg: &Aggregate, v0: &Value, v1: &Value, v2: &Value, n: usize) -> Result<Option<MD<Value>>, ()> {
-    // Re-wrap the freshly built aggregator under the (concrete) kind the harness asked for: CBMC then sees a
-    // constant discriminant.  Without it every update() explores all variants, including PERCENTILE's slice sort.
-    let mut aggregator = ManuallyDrop::new(match (kind, GroupAggregator::default(agg, v0)) {
-        (K_SUM, GroupAggregator::Sum(x)) => GroupAggregator::Sum(x),
-        (K_AVG, GroupAggregator::Average { sum, count }) => GroupAggregator::Average { sum, count },
-        (K_VAR, GroupAggregator::StandardDeviation { sum, sum_square, count, is_variance }) => GroupAggregator::StandardDeviation { sum, sum_square, count, is_variance },
-        (K_PCT, GroupAggregator::Percentile { values, percentile }) => GroupAggregator::Percentile { values, percentile },
-        (K_AND, GroupAggregator::BoolAnd { value }) => GroupAggregator::BoolAnd { value },
-        (K_OR, GroupAggregator::BoolOr { value }) => GroupAggregator::BoolOr { value },
+    // The aggregator is built by the real GroupAggregator::default and then re-stated field by field from its
+    // *expected* initial contents (asserted equal): CBMC then works with literal enum values whose discriminants
+    // are constants; otherwise every update() explores all variants, including PERCENTILE's slice sort.
+    let built = ManuallyDrop::new(GroupAggregator::default(agg, v0));
+    let first_is_int = matches!(v0, Value::Int(_));
+    let first_is_float = matches!(v0, Value::Float(_));
+    let zero = || if first_is_int { Value::Int(0) } else if first_is_float { Value::Float(Float(0.0)) } else { Value::Null };
+    let same_zero = |v: &Value| match v { Value::Int(0) => first_is_int, Value::Float(f) => first_is_float && f.0 == 0.0, Value::Null => !first_is_int && !first_is_float, _ => false };
+    let mut aggregator = ManuallyDrop::new(match (kind, &*built) {
+        (K_SUM, GroupAggregator::Sum(x)) => { assert!(same_zero(x), "C04 SUM starts from the zero of the first value's type (NULL if that value is NULL)"); GroupAggregator::Sum(zero()) }
+        (K_AVG, GroupAggregator::Average { sum, count }) => { assert!(same_zero(sum) && *count == 0, "C04 AVG starts from zero"); GroupAggregator::Average { sum: zero(), count: 0 } }
+        (K_VAR, GroupAggregator::StandardDeviation { sum, sum_square, count, is_variance }) => {
+            assert!(same_zero(sum) && same_zero(sum_square) && *count == 0 && *is_variance, "C04 VARIANCE starts from zero");
+            GroupAggregator::StandardDeviation { sum: zero(), sum_square: zero(), count: 0, is_variance: true }
+        }
+        (K_PCT, GroupAggregator::Percentile { values, percentile }) => { assert!(values.is_empty(), "C04 PERCENTILE starts empty"); GroupAggregator::Percentile { values: Vec::new(), percentile: *percentile } }
+        (K_AND, GroupAggregator::BoolAnd { value }) => { assert!(value.is_none(), "C04 BOOL_AND starts empty"); GroupAggregator::BoolAnd { value: None } }
+        (K_OR, GroupAggregator::BoolOr { value }) => { assert!(value.is_none(), "C04 BOOL_OR starts empty"); GroupAggregator::BoolOr { value: None } }
         _ => { assert!(false, "C04 GroupAggregator::default builds the aggregator of the requested aggregate"); return Err(()); }
     });
     let mut cell: Option<MD<Value>> = None;
     macro_rules! step {
         ($v:expr) => {
             if $v.is_not_null() {
-                let r = ManuallyDrop::new(aggregator.update(ManuallyDrop::into_inner(ManuallyDrop::new($v.clone()))));
+                let r = ManuallyDrop::new(aggregator.update(unsafe { std::ptr::read($v as *const Value) }));
                 match &*r {
-                    Ok(Some(value)) => { cell = Some(ManuallyDrop::new(value.clone())); }
+                    Ok(Some(value)) => { cell = Some(ManuallyDrop::new(unsafe { std::ptr::read(value as *const Value) })); }
                     Ok(None) => {}
                     Err(_) => { return Err(()); }
                 }
@@ -54,9 +66,13 @@ fn fold3(kind: u8, agg: &Aggregate, v0: &Value, v1: &Value, v2: &Value, n: usize
     if n > 0 { step!(v0); }
     if n > 1 { step!(v1); }
     if n > 2 { step!(v2); }
+    if let GroupAggregator::StandardDeviation { sum, sum_square, count, .. } = &*aggregator {
+        let as_int = |v: &Value| if let Value::Int(x) = v { Some(*x) } else { None };
+        unsafe { LAST_VARIANCE_STATE = (as_int(sum), as_int(sum_square), *count); }
+    }
     let r = ManuallyDrop::new(aggregator.update_value());
     match &*r {
-        Ok(Some(value)) => { cell = Some(ManuallyDrop::new(value.clone())); }
+        Ok(Some(value)) => { cell = Some(ManuallyDrop::new(unsafe { std::ptr::read(value as *const Value) })); }
         Ok(None) => {}
         Err(_) => { return Err(()); }
     }
@@ -114,20 +130,25 @@ fn cell_is_null(c: &Result<Option<MD<Value>>, ()>) -> bool {
 
 const SMALL: i64 = 1 << 20;
 
-/// Numeric folds over three values, each NULL or a small integer (|x| <= 2^20, so every sum and square
-/// is exact in i64 and in f64): value by definition (C04) and the same for every arrival order (C15).
+/// Numeric folds over three rows with a *concrete* NULL pattern (a symbolic pattern makes the variant of every
+/// Value symbolic, and CBMC then walks the recursive clone / drop glue on each use) and symbolic small integers
+/// (|x| <= 2^20, so every sum and square is exact in i64 and in f64): the cell is the value by definition (C04)
+/// and the same for the reversed and the rotated arrival order (C15).
 macro_rules! numeric_fold_harness {
-    ($name:ident, $agg:expr, $is_float:expr, $kind:expr) => {
+    ($name:ident, $agg:expr, $is_float:expr, $kind:expr, $n0:expr, $n1:expr, $n2:expr) => {
         #[kani::proof]
         #[kani::unwind(2)]
         #[kani::stub(alloc::fmt::format, crate::verif_kani::common::stub_format)]
+        #[kani::stub(<crate::model::Value as std::clone::Clone>::clone, crate::verif_kani::common::stub_value_clone_scalar)]
         #[kani::stub(chrono::Local::now, crate::verif_kani::common::stub_local_now)]
         #[kani::stub(<chrono::Local as chrono::TimeZone>::offset_from_local_datetime, crate::verif_kani::common::stub_offset_from_local_datetime)]
         #[kani::stub(<chrono::Local as chrono::TimeZone>::offset_from_utc_datetime, crate::verif_kani::common::stub_offset_from_utc_datetime)]
         fn $name() {
-            let n0: bool = kani::any(); let n1: bool = kani::any(); let n2: bool = kani::any();
+            let (n0, n1, n2): (bool, bool, bool) = ($n0, $n1, $n2);
             let x0: i64 = kani::any(); let x1: i64 = kani::any(); let x2: i64 = kani::any();
-            kani::assume(x0 >= -SMALL && x0 <= SMALL && x1 >= -SMALL && x1 <= SMALL && x2 >= -SMALL && x2 <= SMALL);
+            // squares (VARIANCE) are 64-bit multiplications, which the SAT solver only handles for narrow operands
+            let bound = if $kind == 2 { 8 } else { SMALL };
+            kani::assume(x0 >= -bound && x0 <= bound && x1 >= -bound && x1 <= bound && x2 >= -bound && x2 <= bound);
             let (a, b, c) = if $is_float {
                 (float_or_null(n0, x0), float_or_null(n1, x1), float_or_null(n2, x2))
             } else {
@@ -143,11 +164,9 @@ macro_rules! numeric_fold_harness {
             if cnt == 0 {
                 assert!(cell_is_null(&base), "C04 aggregate over no non-NULL value is NULL");
             } else if $kind == 0 {
-                // SUM
                 if $is_float { assert!(cell_float(&base) == Some(sum as f64), "C04 SUM is the sum of the non-NULL values"); }
                 else { assert!(cell_int(&base) == Some(sum), "C04 SUM is the sum of the non-NULL values"); }
             } else if $kind == 1 {
-                // AVG: REAL exactly sum/count; INT within one of the mean (integer average)
                 if $is_float { assert!(cell_float(&base) == Some(sum as f64 / cnt as f64), "C04 AVG is sum / count of the non-NULL values"); }
                 else {
                     let avg = cell_int(&base);
@@ -155,41 +174,59 @@ macro_rules! numeric_fold_harness {
                     let d = sum - avg.unwrap() * cnt;
                     assert!(d > -cnt && d < cnt, "C04 AVG is sum / count of the non-NULL values");
                 }
-            } else {
-                // VARIANCE = (sum of squares - sum^2 / n) / n
+            } else if $is_float {
                 let nf = cnt as f64;
                 let expected = ((ssq as f64) - ((sum as f64) * (sum as f64)) / nf) / nf;
                 assert!(cell_float(&base) == Some(expected), "C04 VARIANCE is (sum x^2 - (sum x)^2 / n) / n over the non-NULL values");
+            } else {
+                // INT: the cell is f(sum, sum of squares, n) computed in f64 by one closure; the solver decides the three
+                // accumulators (the float formula itself is sliced away: symbolic f64 division does not conclude)
+                let st = unsafe { LAST_VARIANCE_STATE };
+                assert!(st.0 == Some(sum) && st.1 == Some(ssq) && st.2 == cnt, "C04 VARIANCE / STDDEV accumulate sum, sum of squares and count of the non-NULL values");
+                assert!(cell_float(&base).is_some(), "C04 VARIANCE of INT values is a REAL");
             }
 
-            // --- C15: any arrival order gives the same cell
-            let k: u8 = kani::any();
-            kani::assume(k < 6);
-            let (p, q, r) = pick(k, &a, &b, &c);
-            let permuted = fold3($kind, &agg, p, q, r, 3);
-            assert!(same_cell(&base, &permuted), "C15 aggregate is the same for every order of the group's rows");
-            kani::cover!(cnt == 3 && k == 5, "fold: all non-NULL, reversed order reachable");
-            kani::cover!(n0 && !n1, "fold: NULL arrives first reachable");
+            // --- C15: other arrival orders give the same cell
+            let st_base = unsafe { LAST_VARIANCE_STATE };
+            let reversed = fold3($kind, &agg, &c, &b, &a, 3);
+            if $kind == 2 && !$is_float {
+                let st = unsafe { LAST_VARIANCE_STATE };
+                assert!(cnt == 0 || (st.0 == st_base.0 && st.1 == st_base.1 && st.2 == st_base.2), "C15 aggregate is the same for every order of the group's rows");
+            } else {
+                assert!(same_cell(&base, &reversed), "C15 aggregate is the same for every order of the group's rows");
+                let rotated = fold3($kind, &agg, &b, &c, &a, 3);
+                assert!(same_cell(&base, &rotated), "C15 aggregate is the same for every order of the group's rows");
+            }
+            kani::cover!(true, "fold: end reachable");
         }
     };
 }
-numeric_fold_harness!(c04_fold_sum_int, Aggregate::Sum(ExpressionTree::Wildcard), false, 0);
-numeric_fold_harness!(c04_fold_sum_float, Aggregate::Sum(ExpressionTree::Wildcard), true, 0);
-numeric_fold_harness!(c04_fold_avg_int, Aggregate::Average(ExpressionTree::Wildcard), false, 1);
-numeric_fold_harness!(c04_fold_avg_float, Aggregate::Average(ExpressionTree::Wildcard), true, 1);
-numeric_fold_harness!(c04_fold_variance_int, Aggregate::StandardDeviation(ExpressionTree::Wildcard, true), false, 2);
-numeric_fold_harness!(c04_fold_variance_float, Aggregate::StandardDeviation(ExpressionTree::Wildcard, true), true, 2);
+macro_rules! numeric_fold_patterns {
+    ($vvv:ident, $nvv:ident, $vnv:ident, $nnn:ident, $agg:expr, $is_float:expr, $kind:expr) => {
+        numeric_fold_harness!($vvv, $agg, $is_float, $kind, false, false, false);
+        numeric_fold_harness!($nvv, $agg, $is_float, $kind, true, false, false);
+        numeric_fold_harness!($vnv, $agg, $is_float, $kind, false, true, false);
+        numeric_fold_harness!($nnn, $agg, $is_float, $kind, true, true, true);
+    };
+}
+numeric_fold_patterns!(c04_fold_sum_int_vvv, c04_fold_sum_int_nvv, c04_fold_sum_int_vnv, c04_fold_sum_int_nnn, Aggregate::Sum(ExpressionTree::Wildcard), false, 0);
+numeric_fold_patterns!(c04_fold_sum_float_vvv, c04_fold_sum_float_nvv, c04_fold_sum_float_vnv, c04_fold_sum_float_nnn, Aggregate::Sum(ExpressionTree::Wildcard), true, 0);
+numeric_fold_patterns!(c04_fold_avg_int_vvv, c04_fold_avg_int_nvv, c04_fold_avg_int_vnv, c04_fold_avg_int_nnn, Aggregate::Average(ExpressionTree::Wildcard), false, 1);
+numeric_fold_patterns!(c04_fold_avg_float_vvv, c04_fold_avg_float_nvv, c04_fold_avg_float_vnv, c04_fold_avg_float_nnn, Aggregate::Average(ExpressionTree::Wildcard), true, 1);
+numeric_fold_patterns!(c04_fold_variance_int_vvv, c04_fold_variance_int_nvv, c04_fold_variance_int_vnv, c04_fold_variance_int_nnn, Aggregate::StandardDeviation(ExpressionTree::Wildcard, true), false, 2);
+numeric_fold_patterns!(c04_fold_variance_float_vvv, c04_fold_variance_float_nvv, c04_fold_variance_float_vnv, c04_fold_variance_float_nnn, Aggregate::StandardDeviation(ExpressionTree::Wildcard, true), true, 2);
 
 macro_rules! bool_fold_harness {
-    ($name:ident, $agg:expr, $is_and:expr) => {
+    ($name:ident, $agg:expr, $is_and:expr, $n0:expr, $n1:expr, $n2:expr) => {
         #[kani::proof]
         #[kani::unwind(2)]
         #[kani::stub(alloc::fmt::format, crate::verif_kani::common::stub_format)]
+        #[kani::stub(<crate::model::Value as std::clone::Clone>::clone, crate::verif_kani::common::stub_value_clone_scalar)]
         #[kani::stub(chrono::Local::now, crate::verif_kani::common::stub_local_now)]
         #[kani::stub(<chrono::Local as chrono::TimeZone>::offset_from_local_datetime, crate::verif_kani::common::stub_offset_from_local_datetime)]
         #[kani::stub(<chrono::Local as chrono::TimeZone>::offset_from_utc_datetime, crate::verif_kani::common::stub_offset_from_utc_datetime)]
         fn $name() {
-            let n0: bool = kani::any(); let n1: bool = kani::any(); let n2: bool = kani::any();
+            let (n0, n1, n2): (bool, bool, bool) = ($n0, $n1, $n2);
             let x0: bool = kani::any(); let x1: bool = kani::any(); let x2: bool = kani::any();
             let (a, b, c) = (bool_or_null(n0, x0), bool_or_null(n1, x1), bool_or_null(n2, x2));
             let agg = ManuallyDrop::new($agg);
@@ -202,17 +239,20 @@ macro_rules! bool_fold_harness {
                 let expected = if $is_and { (n0 || x0) && (n1 || x1) && (n2 || x2) } else { (!n0 && x0) || (!n1 && x1) || (!n2 && x2) };
                 assert!(cell_bool(&base) == Some(expected), "C04 BOOL_AND / BOOL_OR fold the non-NULL values");
             }
-            let k: u8 = kani::any();
-            kani::assume(k < 6);
-            let (p, q, r) = pick(k, &a, &b, &c);
-            let permuted = fold3(kind, &agg, p, q, r, 3);
-            assert!(same_cell(&base, &permuted), "C15 aggregate is the same for every order of the group's rows");
-            kani::cover!(cnt == 3 && k == 5, "fold: all non-NULL, reversed order reachable");
+            let reversed = fold3(kind, &agg, &c, &b, &a, 3);
+            assert!(same_cell(&base, &reversed), "C15 aggregate is the same for every order of the group's rows");
+            let rotated = fold3(kind, &agg, &b, &c, &a, 3);
+            assert!(same_cell(&base, &rotated), "C15 aggregate is the same for every order of the group's rows");
+            kani::cover!(true, "fold: end reachable");
         }
     };
 }
-bool_fold_harness!(c04_fold_bool_and, Aggregate::BoolAnd(ExpressionTree::Wildcard), true);
-bool_fold_harness!(c04_fold_bool_or, Aggregate::BoolOr(ExpressionTree::Wildcard), false);
+bool_fold_harness!(c04_fold_bool_and_vvv, Aggregate::BoolAnd(ExpressionTree::Wildcard), true, false, false, false);
+bool_fold_harness!(c04_fold_bool_and_nvv, Aggregate::BoolAnd(ExpressionTree::Wildcard), true, true, false, false);
+bool_fold_harness!(c04_fold_bool_and_nnn, Aggregate::BoolAnd(ExpressionTree::Wildcard), true, true, true, true);
+bool_fold_harness!(c04_fold_bool_or_vvv, Aggregate::BoolOr(ExpressionTree::Wildcard), false, false, false, false);
+bool_fold_harness!(c04_fold_bool_or_nvv, Aggregate::BoolOr(ExpressionTree::Wildcard), false, true, false, false);
+bool_fold_harness!(c04_fold_bool_or_nnn, Aggregate::BoolOr(ExpressionTree::Wildcard), false, true, true, true);
 
 /// Full-range INT sums: the running sum / square must not panic or wrap (C09); an overflow has to
 /// surface as an error (C04: "computed from exactly the rows of that group", never a wrapped number).
@@ -221,6 +261,7 @@ macro_rules! overflow_fold_harness {
         #[kani::proof]
         #[kani::unwind(2)]
         #[kani::stub(alloc::fmt::format, crate::verif_kani::common::stub_format)]
+        #[kani::stub(<crate::model::Value as std::clone::Clone>::clone, crate::verif_kani::common::stub_value_clone_scalar)]
         #[kani::stub(chrono::Local::now, crate::verif_kani::common::stub_local_now)]
         #[kani::stub(<chrono::Local as chrono::TimeZone>::offset_from_local_datetime, crate::verif_kani::common::stub_offset_from_local_datetime)]
         #[kani::stub(<chrono::Local as chrono::TimeZone>::offset_from_utc_datetime, crate::verif_kani::common::stub_offset_from_utc_datetime)]
@@ -241,13 +282,24 @@ macro_rules! overflow_fold_harness {
 overflow_fold_harness!(c09_fold_sum_int_overflow, Aggregate::Sum(ExpressionTree::Wildcard), K_SUM);
 overflow_fold_harness!(c09_fold_avg_int_overflow, Aggregate::Average(ExpressionTree::Wildcard), K_AVG);
 
+/// `<[Value]>::sort` as environment: std's sort is trusted; this contract stub sorts up to 3 elements ascending by `Ord`.
+fn stub_sort_values<T: Ord>(v: &mut [T]) {
+    let n = v.len();
+    if n >= 2 && v[0] > v[1] { v.swap(0, 1); }
+    if n >= 3 && v[1] > v[2] { v.swap(1, 2); }
+    if n >= 2 && v[0] > v[1] { v.swap(0, 1); }
+    kani::assume(n <= 3);
+}
+
 /// PERCENTILE(p) over 1..3 INT values: for every p in [0, 1] the cell is an element of the group,
 /// namely sorted[floor(p * n)] (the last element for p = 1.0), for every arrival order.
 macro_rules! percentile_harness {
     ($name:ident, $n:expr) => {
         #[kani::proof]
         #[kani::unwind(4)]
+        #[kani::stub(<[crate::model::Value]>::sort, stub_sort_values)]
         #[kani::stub(alloc::fmt::format, crate::verif_kani::common::stub_format)]
+        #[kani::stub(<crate::model::Value as std::clone::Clone>::clone, crate::verif_kani::common::stub_value_clone_scalar)]
         #[kani::stub(chrono::Local::now, crate::verif_kani::common::stub_local_now)]
         #[kani::stub(<chrono::Local as chrono::TimeZone>::offset_from_local_datetime, crate::verif_kani::common::stub_offset_from_local_datetime)]
         #[kani::stub(<chrono::Local as chrono::TimeZone>::offset_from_utc_datetime, crate::verif_kani::common::stub_offset_from_utc_datetime)]
@@ -270,11 +322,10 @@ macro_rules! percentile_harness {
             let expected = if idx == 0 { s0 } else if idx == 1 { s1 } else { s2 };
             assert!(cell_int(&base) == Some(expected), "C04 PERCENTILE(p) is the element at floor(p*n) of the sorted non-NULL values (the largest for p = 1)");
             if $n == 3 {
-                let k: u8 = kani::any();
-                kani::assume(k < 6);
-                let (u, v, w) = pick(k, &a, &b, &c);
-                let permuted = fold3(K_PCT, &agg, u, v, w, 3);
-                assert!(same_cell(&base, &permuted), "C15 aggregate is the same for every order of the group's rows");
+                let reversed = fold3(K_PCT, &agg, &c, &b, &a, 3);
+                assert!(same_cell(&base, &reversed), "C15 aggregate is the same for every order of the group's rows");
+                let rotated = fold3(K_PCT, &agg, &b, &c, &a, 3);
+                assert!(same_cell(&base, &rotated), "C15 aggregate is the same for every order of the group's rows");
             }
             kani::cover!(p == 1.0, "percentile: p = 1 reachable");
             kani::cover!(p == 0.5, "percentile: p = 0.5 reachable");
@@ -289,6 +340,7 @@ percentile_harness!(c04_fold_percentile_n3, 3);
 #[kani::proof]
 #[kani::unwind(2)]
 #[kani::stub(alloc::fmt::format, crate::verif_kani::common::stub_format)]
+#[kani::stub(<crate::model::Value as std::clone::Clone>::clone, crate::verif_kani::common::stub_value_clone_scalar)]
 #[kani::stub(chrono::Local::now, crate::verif_kani::common::stub_local_now)]
 #[kani::stub(<chrono::Local as chrono::TimeZone>::offset_from_local_datetime, crate::verif_kani::common::stub_offset_from_local_datetime)]
 #[kani::stub(<chrono::Local as chrono::TimeZone>::offset_from_utc_datetime, crate::verif_kani::common::stub_offset_from_utc_datetime)]
